@@ -67,13 +67,23 @@ pub fn ctime() -> impl Strategy<Value = CTime> {
     ]
 }
 
+/// Octet strings whose length needs a TLF of four or five bytes (beyond 2^12 and 2^16): rare, one value in ~700.
+pub fn octet_huge() -> impl Strategy<Value = COctet> {
+    (prop_oneof![2 => 4090usize..4100, 1 => 65_530usize..65_545, 1 => 4100usize..70_000], any::<u64>()).prop_map(|(len, seed)| {
+        let mut data = Vec::with_capacity(len);
+        crate::gen::payload::fill(2, seed, len, &mut data);
+        COctet { data, extra: 0 }
+    })
+}
+
 pub fn cvalue() -> impl Strategy<Value = CValue> {
     prop_oneof![
-        2 => prop_oneof![Just(0u8), Just(1u8), Just(0xffu8), any::<u8>()].prop_map(CValue::Bool),
-        3 => octet(300).prop_map(CValue::Bytes),
-        5 => cint(1, 8).prop_map(CValue::Int),
-        5 => cuint(1, 8).prop_map(CValue::Uint),
-        1 => (extra(), extra(), ctime()).prop_map(|(list_extra, tag_extra, time)| CValue::ListTime { list_extra, tag_extra, time }),
+        200 => prop_oneof![Just(0u8), Just(1u8), Just(0xffu8), any::<u8>()].prop_map(CValue::Bool),
+        300 => octet(300).prop_map(CValue::Bytes),
+        3 => octet_huge().prop_map(CValue::Bytes),
+        500 => cint(1, 8).prop_map(CValue::Int),
+        500 => cuint(1, 8).prop_map(CValue::Uint),
+        100 => (extra(), extra(), ctime()).prop_map(|(list_extra, tag_extra, time)| CValue::ListTime { list_extra, tag_extra, time }),
     ]
 }
 
